@@ -112,10 +112,7 @@ LSpec == LInit /\ [][LNext]_ivars
 (* the parse consumes a prefix of the text *)
 NextInRange == LET p == ParseRemainder(Full) IN p.ok => (p.next >= 6 /\ p.next <= Len(Full) + 1)
 
-(* recorded finding (see InlineScan): an escaped backslash directly before a tag or autolink *)
-LTags == LET sc == Scan(Full) IN
-         IF \E k \in 1..(Len(sc) - 1) : sc[k].k = "esc" /\ Full[sc[k].e] = "\\" /\ sc[k + 1].k \in {"html", "auto"}
-         THEN {"escaped-backslash-before-tag-or-autolink"} ELSE {}
+LTags == {}
 
 LExport == PrintT(ToJson([input |-> Flat(Full), html |-> LinkHtml, link |-> IF ParseRemainder(Full).ok THEN "yes" ELSE "no", tags |-> LTags]))
 =============================================================================
